@@ -46,6 +46,11 @@ type World struct {
 	ValSizes []int
 	// DiscardFrac is the fraction of writes carrying the discard-earlier-versions bit.
 	DiscardFrac float64
+	// NonMonotonic (managed mode): commit at arbitrary timestamps above the discard ts, including
+	// timestamps used before.
+	NonMonotonic bool
+	// PerKeyMonotone restricts NonMonotonic so that a key is never written below its newest version.
+	PerKeyMonotone bool
 }
 
 // Open opens a DB for the driver (no background compactors).
@@ -129,7 +134,24 @@ func (w *World) Commit(specs []WriteSpec) (uint64, error) {
 	var ts uint64
 	if w.Managed {
 		ts = w.NextTs
-		w.NextTs++
+		if w.NonMonotonic {
+			lo := w.Discard + 1
+			if w.PerKeyMonotone {
+				for _, s := range specs {
+					if vs := w.M.M[string(s.Key)]; len(vs) > 0 && vs[0].Ts > lo {
+						lo = vs[0].Ts
+					}
+				}
+			}
+			hi := w.NextTs + 2
+			if hi < lo {
+				hi = lo
+			}
+			ts = lo + uint64(w.R.Int63n(int64(hi-lo+1)))
+		}
+		if ts >= w.NextTs {
+			w.NextTs = ts + 1
+		}
 		if err := txn.CommitAt(ts, nil); err != nil {
 			return 0, err
 		}
